@@ -14,6 +14,35 @@ import (
 	"verif/harness/internal/core"
 )
 
+// stuckSchedules counts M1 schedules of this worker process in which a
+// released goroutine neither parked nor ended.  Each costs a 3 s watchdog; on a
+// tree where that is the norm the remaining M1 cases are skipped (inconclusive)
+// so that the check still ends in bounded time.
+var stuckSchedules int
+
+const maxStuckSchedules = 6
+
+// timedOutRuns counts M2/M3 runs of this worker process that hit their
+// wall-clock watchdog (20-60 s each); after three the remaining real-scheduler
+// runs are skipped so that a tree that blocks every run still ends in minutes.
+var timedOutRuns int
+
+func realSchedulerDisabled(c *core.Ctx) bool {
+	if timedOutRuns >= 3 {
+		c.Inconclusive("real-scheduler runs skipped in this worker after three runs that hit their watchdog (the first ones are reported)")
+		return true
+	}
+	return false
+}
+
+func m1Disabled(c *core.Ctx) bool {
+	if stuckSchedules >= maxStuckSchedules {
+		c.Inconclusive("M1 skipped in this worker after 6 schedules in which a released goroutine never reached a hook again (watchdog, not a verdict)")
+		return true
+	}
+	return false
+}
+
 func traceHash(s *Sched) uint64 { return core.HashStr(strings.Join(s.Trace, ">")) }
 
 func absorbCov(c *core.Ctx, s *Sched) {
@@ -33,6 +62,13 @@ func reportM1(c *core.Ctx, s *Sched, panicMsg string, cs map[string]any, deadloc
 			c.Cover("m1.legitimate-starvation-after-removeall")
 		}
 		return false
+	}
+	if s.NotClosed() != "" {
+		c.Violation("m1/close-does-not-close", s.NotClosed(), cs)
+		return false
+	}
+	if s.Stuck() {
+		stuckSchedules++
 	}
 	switch {
 	case s.Unrepresentable():
@@ -64,6 +100,9 @@ func reportM1(c *core.Ctx, s *Sched, panicMsg string, cs map[string]any, deadloc
 
 // RunC04M1: one schedule of one generated program, all offline checkers.
 func RunC04M1(c *core.Ctx) {
+	if m1Disabled(c) {
+		return
+	}
 	p := GenQProgram(c.Rng, true)
 	res := RunQProgram(c.Rng.Fork(), p)
 	cs := map[string]any{"program": p.String(), "history": res.Hist.Strings()}
@@ -93,6 +132,9 @@ func RunC04M1(c *core.Ctx) {
 // RunC05M1: well-formed producer/consumer/closer programs; the deadlock oracle
 // and the terminal conservation check.
 func RunC05M1(c *core.Ctx) {
+	if m1Disabled(c) {
+		return
+	}
 	p := GenQProgram(c.Rng, true)
 	if !p.Closer && !p.StarvationOK {
 		p.Closer = true
@@ -283,31 +325,57 @@ func sizeOf(v any) int {
 	return -1
 }
 
-// stableBlock: two goroutine dumps 300 ms apart both show a goroutine parked
-// in a channel send inside the named repository function.
+// stableBlock is the deadlock verdict for runs on the real scheduler: in two
+// goroutine dumps one second apart EVERY goroutine that has a repository frame
+// is parked in a channel / mutex / wait-group wait (none running or runnable),
+// the set of (goroutine, state) is identical, and at least one of them is
+// parked inside the named repository function.  Such a state cannot change by
+// itself, so the verdict does not depend on how long we waited.
 func stableBlock(fn string) (bool, string) {
-	find := func() string {
-		buf := make([]byte, 1<<20)
+	snap := func() (string, string, bool) {
+		buf := make([]byte, 4<<20)
 		buf = buf[:runtime.Stack(buf, true)]
+		var sig []string
+		where := ""
 		for _, g := range strings.Split(string(buf), "\n\n") {
+			if !strings.Contains(g, core.RepoPrefix) {
+				continue
+			}
 			head := strings.SplitN(g, "\n", 2)[0]
-			if strings.Contains(head, "[chan send") && strings.Contains(g, core.RepoPrefix) && strings.Contains(g, fn) {
-				return head
+			parked := false
+			for _, st := range []string{"[chan send", "[chan receive", "[sync.Mutex.Lock", "[semacquire", "[sync.WaitGroup.Wait", "[select", "[sync.Cond.Wait"} {
+				if strings.Contains(head, st) {
+					parked = true
+				}
+			}
+			if !parked {
+				return "", "", false
+			}
+			f := strings.Fields(head)
+			if len(f) >= 3 {
+				sig = append(sig, f[1]+strings.SplitN(f[2], ",", 2)[0])
+			}
+			if strings.Contains(g, fn) && where == "" {
+				where = head
 			}
 		}
-		return ""
+		sortStrings(sig)
+		return strings.Join(sig, " "), where, true
 	}
-	a := find()
-	time.Sleep(300 * time.Millisecond)
-	b := find()
-	if a != "" && b != "" && strings.SplitN(a, " ", 3)[1] == strings.SplitN(b, " ", 3)[1] {
-		return true, a + " in " + fn
+	a, wa, oka := snap()
+	time.Sleep(time.Second)
+	b, wb, okb := snap()
+	if oka && okb && a != "" && a == b && wa != "" && wb != "" {
+		return true, wa + " in " + fn + " (all goroutines with repository frames parked, identical in two dumps)"
 	}
 	return false, ""
 }
 
 // RunC06M1: one schedule of a stream program.
 func RunC06M1(c *core.Ctx, idx int) {
+	if m1Disabled(c) {
+		return
+	}
 	shapes := []string{"fork", "split", "splitjoin"}
 	p := SProgram{Shape: shapes[idx%3], Length: (idx / 3) % 5, Fan: 2 + (idx/15)%2, Cap: 1 + (idx/30)%2}
 	res := RunSProgram(c.Rng.Fork(), p)
@@ -348,6 +416,9 @@ func m2jitter(kind uint8, q any) {
 // RunC04M2: an epoch of a larger program on the real scheduler with recorded
 // stamps; same offline checkers.
 func RunC04M2(c *core.Ctx, idx int) {
+	if realSchedulerDisabled(c) {
+		return
+	}
 	r := c.Rng
 	hookOnce.Do(func() { col.VerifSetHook(globalHook) })
 	activeMu.Lock()
@@ -455,12 +526,13 @@ func RunC04M2(c *core.Ctx, idx int) {
 	cs := map[string]any{"program": fmt.Sprintf("cap=%d producers=%d x %d consumers=%d removeAll=%v", capa, np, per, nc, removeAll)}
 	select {
 	case <-done:
-	case <-time.After(20 * time.Second):
+	case <-time.After(10 * time.Second):
+		timedOutRuns++
 		cs["history"] = h.Strings()
 		if blocked, where := stableBlock("queue_"); blocked {
 			c.Violation("m2/deadlock", "a well-formed producer/consumer/closer program did not terminate on the real scheduler: "+where, cs)
 		} else {
-			c.Inconclusive("M2: an epoch did not finish within 20 s and no stable blocked state was observed")
+			c.Inconclusive("M2: an epoch did not finish within 10 s and no stable blocked state was observed")
 		}
 		return
 	}
@@ -549,6 +621,9 @@ var TinyPrograms = []QProgram{
 // to a budget) and applies every oracle of C04/C05 to each.  prop selects what
 // is reported.
 func RunM1Exhaustive(c *core.Ctx, idx int, prop string) {
+	if m1Disabled(c) {
+		return
+	}
 	p := TinyPrograms[idx%len(TinyPrograms)]
 	budget := core.Tiered(c.Tier, 4000, 400000)
 	var forced []int
@@ -625,6 +700,9 @@ func TinyStreams() []SProgram {
 
 // RunC06Exhaustive: depth-first exploration of every schedule of a tiny stream program.
 func RunC06Exhaustive(c *core.Ctx, idx int) {
+	if m1Disabled(c) {
+		return
+	}
 	ps := TinyStreams()
 	p := ps[idx%len(ps)]
 	budget := core.Tiered(c.Tier, 3000, 300000)
